@@ -74,7 +74,7 @@ FIRST_MISSED = {
     "C08-N": "every third parse of the interning histories is preceded by an input that ends inside open elements carrying declarations (refused): nothing of it may reach the next parse",
     "C11-N": "two insertions through ONE mutable view (attr_session / ns_session: an existing key, then a new one) - the harness had made a fresh view for every call",
     "C13-N": "a comparison that is not an equivalence (no two strings are equal) also on pairs (a, a): new L1 operator AdvancedNever",
-    "C17-N": "NOT reported, by decision: the change ends a text span before a trailing empty CDATA section, which is one of the two readings L1 accepts (11.5 item 15: the statement's 'last merged part' does not say whether an empty section is one)",
+    "C17-N": "L1 had accepted two readings of where a text span ends when an empty CDATA section follows the last character (11.5 item 15); the crate is consistent - a part merged into an existing node extends its span, an empty section in front of the first character creates no node - and the judge now demands exactly that",
     "C19-N": "fragments with a top-level script / style / CDATA-section element followed by top-level character data with markup characters",
     "C12-F": "xml_id_node of a document created by the call must lie inside it (new clause under C12); clone profile parses xml:id documents and clones whole documents",
     "C14-E": "a non-ASCII character in the bracket strings (] > x < CR e-acute up to length 4 / 5)",
